@@ -391,6 +391,23 @@ def list_cases(rnd, q):
         if rnd.random() < 0.4:
             s = rnd.choice([b"\n  ", b" ", b"\n", b"/*lead*/ ", b"\t"]) + s
         out.append((entry, s))
+    # long lists: the same statement many times (a list shares ONE Parser; nothing may accumulate across statements:
+    # nesting counters, depth limits, caches)
+    rich = [b"SELECT * FROM t WHERE (a, b) IN ((1, 2), (3, 4))", b"SELECT ((((1)))), [1, 2], STRUCT(1 AS a), CASE WHEN a THEN (b) END FROM (SELECT 1) AS s",
+            b"SELECT ARRAY<STRUCT<a INT64, b ARRAY<STRING>>>[], CAST(x AS ARRAY<ARRAY<INT64>>) FROM t", b"SELECT a.b.c[OFFSET(1)].d, f(g(h(1))), (SELECT (SELECT 1))",
+            b"SELECT 1 UNION ALL (SELECT 2 INTERSECT ALL (SELECT 3))", b"SELECT NEW a.B {c: 1, d {e: [1, 2]}} AS x", b"SELECT @{a=1} * FROM t@{b=2} JOIN @{c=3} u USING (k)",
+            b"SELECT IF(a, (b, c), (d, e)), x BETWEEN (1) AND (2), y IN UNNEST([(1, 2)])"]
+    rich_ddl = [b"CREATE TABLE t (a INT64 NOT NULL, b ARRAY<STRING(MAX)>, c STRUCT<x INT64, y ARRAY<INT64>>) PRIMARY KEY (a)", b"CREATE INDEX i ON t (a, b DESC) STORING (c)",
+                b"ALTER TABLE t ADD COLUMN d INT64 DEFAULT ((1 + (2)))", b"CREATE VIEW v SQL SECURITY INVOKER AS SELECT (a, b) FROM t"]
+    rich_dml = [b"INSERT INTO t (a, b) VALUES ((1, 2), (3, 4)), ((5, 6), DEFAULT)", b"UPDATE t SET a = (1, 2), b = [(3)] WHERE (c, d) IN ((1, 2))", b"DELETE FROM t WHERE (a, b) IN ((1, 2), (3, 4))"]
+    corp_q = [c for c in corp["query"] if len(c) < 300][:6 if q else 40]
+    for n in ((70, 200) if q else (70, 200, 600)):
+        for st in rich + corp_q:
+            out.append(("ParseStatements", b";\n".join([st] * n) + rnd.choice([b"", b";", b";\n"])))
+        for st in rich_ddl:
+            out.append(("ParseDDLs", b";\n".join([st] * n)))
+        for st in rich_dml:
+            out.append(("ParseDMLs", b";\n".join([st] * n) + b";"))
     return out
 
 
